@@ -8,7 +8,8 @@
 (*    while no call is in flight or while its call is blocked in routeAsync behind a busy forwarder *)
 (*    (Go's select between a ready forwarder and a closed quit channel is random);                  *)
 (*  - exactly one outgoing link is eligible when a packet is routed (the switch picks at random     *)
-(*    among the eligible links), so the first step makes one link the eligible one.                 *)
+(*    among the eligible links), so the first step makes one link the eligible one; later it is     *)
+(*    changed only where it matters: before a link instance forwards, or while a call is in flight. *)
 EXTENDS SwitchForward, TLC, Json
 CONSTANT MaxLen
 VARIABLE hist
@@ -27,7 +28,7 @@ GNext ==
           \/ ((fwded \/ Len(hist) % 4 = 0) /\ Step("Stop", None, Stop)) \/ Step("Relink", None, Relink)
           \/ \E c \in OutChans : \/ Step("Take", c, Take(c)) \/ Step("OutCommit", c, OutCommit(c))
                                  \/ Step("OutRestart", c, OutRestart(c))
-                                 \/ (fwdK = None /\ Step("SetElig", c, SetElig({c})))
+                                 \/ ((pc = "route" \/ (~fwded /\ ~quit)) /\ Step("SetElig", c, SetElig({c})))
 GSpec == GInit /\ [][GNext]_<<svars, hist>>
 Dump == (Len(hist) = MaxLen \/ (Done /\ hist # <<>>)) =>
           ndJsonSerialize("b_" \o ToString(TLCGet("stats").traces) \o ".ndjson", hist)
